@@ -104,12 +104,13 @@ func hellos(r *vk.Run, std *fix.Std) {
 type cookieCase struct {
 	IP, Port, Key, Rotated bool // changed?
 	FlipByte               int  // -1 = none, else byte of the cookie to flip
+	FlipBit                int  // which bit of that byte (0 = lowest)
 	OtherServer            bool
 	V6                     bool // the client lives on an IPv6 address
 }
 
 func (c cookieCase) String() string {
-	return fmt.Sprintf("ip=%v,port=%v,kemkey=%v,rotated=%v,flip=%d,otherserver=%v,v6=%v", c.IP, c.Port, c.Key, c.Rotated, c.FlipByte, c.OtherServer, c.V6)
+	return fmt.Sprintf("ip=%v,port=%v,kemkey=%v,rotated=%v,flip=%d.%d,otherserver=%v,v6=%v", c.IP, c.Port, c.Key, c.Rotated, c.FlipByte, c.FlipBit, c.OtherServer, c.V6)
 }
 
 const cookieOff = 4 + 32 + transport.KemKeyLen
@@ -156,7 +157,7 @@ func cookieRun(std *fix.Std, c cookieCase) (accepted bool, err error) {
 		ack[4+32+17] ^= 0x04 // a byte of the client KEM key repeated in the ack
 	}
 	if c.FlipByte >= 0 {
-		ack[cookieOff+c.FlipByte] ^= 0x01
+		ack[cookieOff+c.FlipByte] ^= 1 << uint(c.FlipBit)
 	}
 	before := w.Net.LogLen()
 	w.Net.Deliver(ack, src, target.Addr)
@@ -182,6 +183,14 @@ func cookies(r *vk.Run, std *fix.Std) {
 	}
 	for b := 0; b < transport.PQCookieLen; b++ {
 		cases = append(cases, cookieCase{FlipByte: b})
+		if r.Thorough() { // every bit, and both client address families
+			for bit := 1; bit < 8; bit++ {
+				cases = append(cases, cookieCase{FlipByte: b, FlipBit: bit})
+			}
+			for bit := 0; bit < 8; bit += 7 {
+				cases = append(cases, cookieCase{FlipByte: b, FlipBit: bit, V6: true})
+			}
+		}
 	}
 	cases = append(cases, cookieCase{FlipByte: -1, OtherServer: true})
 	r.Parallel(len(cases), func(i int) {
@@ -454,7 +463,7 @@ func tb(b []byte) string {
 func main() {
 	r := vk.New("C19", "fault_enumeration")
 	std := fix.NewStd()
-	r.SetRule("discoverable: k in {1,10,1000} genuine client hellos from {1,10} addresses -> handshake/session/pending tables empty, goroutine count unchanged, one reply each; client ack accepted iff cookie minted by this server under its current key for the same IP, port and client KEM key: all 2^4 changed/unchanged combinations for an IPv4 and for an IPv6 client (key rotation through the rotation step itself), every single cookie byte flipped, ack presented to another server instance. Hidden (IsHidden server): every captured discoverable-mode message, raw junk (11 lengths x 11 type bytes), request under another KEM key, hidden request with two bit flips at start/middle/end of each of its 7 fields, truncation before and inside each field, trailing bytes, and (through a check-time clock seam in the client's request writer) timestamps now-3 (fresh) / now-8 / now-60 / -1 day / +30 s / +1 day / 0 / 2^31 / 2^63-1 / 2^63 / 2^63+now / 2^63+now-3 / 2^64-3 / 2^64-1; thorough also holds a request for 7 real seconds. Oracle: zero datagrams from the server for everything but a fresh well-formed request, exactly one for that. distinct_nontrivial = distinct stimulus classes.")
+	r.SetRule("discoverable: k in {1,10,1000} genuine client hellos from {1,10} addresses -> handshake/session/pending tables empty, goroutine count unchanged, one reply each; client ack accepted iff cookie minted by this server under its current key for the same IP, port and client KEM key: all 2^4 changed/unchanged combinations for an IPv4 and for an IPv6 client (key rotation through the rotation step itself), every single cookie byte flipped (thorough: every bit, and two bits per byte for the IPv6 client), ack presented to another server instance. Hidden (IsHidden server): every captured discoverable-mode message, raw junk (11 lengths x 11 type bytes), request under another KEM key, hidden request with two bit flips at start/middle/end of each of its 7 fields, truncation before and inside each field, trailing bytes, and (through a check-time clock seam in the client's request writer) timestamps now-3 (fresh) / now-8 / now-60 / -1 day / +30 s / +1 day / 0 / 2^31 / 2^63-1 / 2^63 / 2^63+now / 2^63+now-3 / 2^64-3 / 2^64-1; thorough also holds a request for 7 real seconds. Oracle: zero datagrams from the server for everything but a fresh well-formed request, exactly one for that. distinct_nontrivial = distinct stimulus classes.")
 	hellos(r, std)
 	cookies(r, std)
 	hidden(r, std)
